@@ -61,7 +61,7 @@ def handleLine (line : String) : String :=
       | _ => "bad-case\tFAIL:bad-case"
     | "c01n" =>
       -- a server without the timer thread: late, split and kept-alive requests are served as usual
-      let model := "late=200 split=200 keepalive=200+200"
+      let model := "late=200 split=200 keepalive=200+200 long=130"
       model ++ "\t" ++ (if obs == model then "ok" else "FAIL:request-not-served-without-timer-thread:")
     | "c02" => Req.handleC02 args obs
     | "c03" => Req.handleC03 args obs
